@@ -101,7 +101,8 @@ def run(scn, st):
             # built) passes its own validate()
             verdict3, o3 = line_verdict(text, version, 3)
             st.count("oracle.level3_construction_consistent")
-            if verdict3 == "rejected-by-validate":
+            from ..recognise import _LONGNUM
+            if verdict3 == "rejected-by-validate" and not _LONGNUM.search(text):
                 raise core.Violation("level3-accepted-then-refused",
                                      "%r (%s of %r) is accepted by Line(..., vlevel=3) and then refused by its validate(): %s: %s" %
                                      (text, op["kind"], op["orig"], o3.excname, str(o3.exc)[:160]),
